@@ -16,12 +16,18 @@ ASSUMPTIONS = ["values, depths and numeric spans on the dyadic grid; whole-secon
 
 def run(ctx):
     import crosscut as cc
-    return adapters.simple_run(
+    out = adapters.simple_run(
         ctx, [(fcl.Climatology(), fcl.gen_clim), (fcl.CalendarFields(), fcl.gen_calendar)], blocks=(cc.layout_block, cc.carrier_block),
         rule="times across 2019-12-25..2021-01-05 (incl. Dec 29-Jan 3, Feb 29); depths present / missing / all missing; 0-3 "
              "overlapping members of every shape (with/without fspan, zspan) and period kind, spans in either order, values on "
              "every span boundary; several time carriers; calendar fields vs pandas on every day of 2015-2030 (thorough "
              "1968-2040). non-trivial = >=2 distinct flags or raises", with_spec=True)
+    # the members given as a ClimatologyConfig OBJECT that the caller keeps and uses again on other series: each call
+    # is judged by the time and depth of ITS observations
+    n_obj, f_obj = cc.clim_object_history(ctx["tier"], ctx["rng"], 120 if ctx["tier"] == "quick" else 1200)
+    out["failures"] += f_obj
+    out["evaluations"] += n_obj
+    return out
 
 
 def replay(payload):
